@@ -19,11 +19,22 @@ type solverSpec struct {
 	args func(file string, timeoutS int) []string
 }
 
+// Time limits are CPU seconds of the solver process (ulimit -t), not wall-clock seconds: a loaded machine slows a query
+// down without changing its verdict. The wall-clock cap (wallFactor times the CPU limit) only stops a process that is
+// starved altogether.
+const wallFactor = 12
+
+func limited(t int, argv ...string) []string {
+	return []string{"sh", "-c", fmt.Sprintf("ulimit -t %d; exec \"$@\"", t), "sh", argv[0]}[0:5:5]
+}
+
 var solvers = []solverSpec{
-	{"z3-new", func(f string, t int) []string { return []string{"z3-new", fmt.Sprintf("-T:%d", t), f} }},
-	{"z3", func(f string, t int) []string { return []string{"z3", fmt.Sprintf("-T:%d", t), f} }},
+	{"z3-new", func(f string, t int) []string {
+		return append(limited(t, "z3-new"), fmt.Sprintf("-T:%d", t*wallFactor), f)
+	}},
+	{"z3", func(f string, t int) []string { return append(limited(t, "z3"), fmt.Sprintf("-T:%d", t*wallFactor), f) }},
 	{"cvc5", func(f string, t int) []string {
-		return []string{"cvc5", "--produce-models", fmt.Sprintf("--tlimit=%d", t*1000), f}
+		return append(limited(t, "cvc5"), "--produce-models", fmt.Sprintf("--tlimit=%d", t*wallFactor*1000), f)
 	}},
 }
 
@@ -69,7 +80,7 @@ func runSolverCtx(parent context.Context, sp solverSpec, file string, timeoutS i
 		return "cancelled", "", 0
 	}
 	defer func() { <-solverSlots }()
-	ctx, cancel := context.WithTimeout(parent, time.Duration(timeoutS+2)*time.Second)
+	ctx, cancel := context.WithTimeout(parent, time.Duration(timeoutS*wallFactor+2)*time.Second)
 	defer cancel()
 	args := sp.args(file, timeoutS)
 	cmd := exec.CommandContext(ctx, args[0], args[1:]...)
@@ -77,8 +88,16 @@ func runSolverCtx(parent context.Context, sp solverSpec, file string, timeoutS i
 	cmd.Stdout = &buf
 	cmd.Stderr = &buf
 	t0 := time.Now()
-	_ = cmd.Run()
+	runErr := cmd.Run()
 	secs = time.Since(t0).Seconds()
+	if cmd.ProcessState != nil {
+		// report CPU seconds: that is what the limit is about
+		secs = (cmd.ProcessState.UserTime() + cmd.ProcessState.SystemTime()).Seconds()
+	}
+	cpuKilled := false
+	if ee, ok := runErr.(*exec.ExitError); ok && ee.ProcessState != nil && !ee.ProcessState.Exited() && parent.Err() == nil && ctx.Err() == nil {
+		cpuKilled = true // killed by a signal that is not ours: the CPU limit (SIGXCPU/SIGKILL)
+	}
 	out = buf.String()
 	first := strings.TrimSpace(strings.SplitN(out, "\n", 2)[0])
 	switch first {
@@ -89,7 +108,7 @@ func runSolverCtx(parent context.Context, sp solverSpec, file string, timeoutS i
 	default:
 		if parent.Err() != nil {
 			res = "cancelled"
-		} else if ctx.Err() != nil {
+		} else if cpuKilled || ctx.Err() != nil {
 			res = "timeout"
 		} else if strings.Contains(first, "timeout") {
 			res = "timeout"
@@ -168,7 +187,8 @@ func solveOne(o *Obl, file string, timeout int, tier string) {
 	for _, sp := range solvers[1:] {
 		sp := sp
 		go func() {
-			rs, ou, se := runSolver(sp, file, timeout)
+			// the fallback solvers get three times the budget: an obligation only they decide must not sit near the limit
+			rs, ou, se := runSolver(sp, file, timeout*3)
 			rc <- r{sp.name, rs, ou, se}
 		}()
 	}
